@@ -63,6 +63,35 @@ def mk(reg, name, depth, uni, cached=False):
     return r
 
 
+_STUB_MIM = None
+
+
+def load_through(reg, r):
+    """the real Region.load on an unpickler that hands back `r` (a pickle keeps the aliasing between the cache and the deepest
+    set, so `r` in its cached state is what a file written after a query unpickles to)"""
+    global _STUB_MIM
+    import io
+    if _STUB_MIM is None:
+        import tempfile
+        fd, _STUB_MIM = tempfile.mkstemp(prefix='c08_', suffix='.mim', dir='/var/tmp')
+        os.close(fd)
+        import atexit
+        atexit.register(lambda: os.path.exists(_STUB_MIM) and os.remove(_STUB_MIM))
+
+    class P:
+        @staticmethod
+        def load(f, *a, **k):
+            return r
+    old_p = reg.cPickle
+    reg.cPickle = P
+    reg.open = lambda *a, **k: io.BytesIO(b'')
+    try:
+        return reg.Region.load(_STUB_MIM)
+    finally:
+        reg.cPickle = old_p
+        del reg.open
+
+
 def alpha(r, uni, depth=None):
     """deepest-level abstraction: {leaf id: z3 Bool} over the universe at r.maxdepth (or given depth)"""
     D = depth or r.maxdepth
@@ -142,11 +171,13 @@ def lift_alpha(al, from_depth, to_depth, uni_to):
 # ------------------------------------------------------------------------------------------------
 # harnesses (one inductive step each)
 # ------------------------------------------------------------------------------------------------
-def h_binop(reg, op, D, uni, cachedA, cachedB, odepth=None, renorm=True):
+def h_binop(reg, op, D, uni, cachedA, cachedB, odepth=None, renorm=True, loadedA=False):
     odepth = odepth or D
 
     def h(c):
         a = mk(reg, 'a', D, uni, cachedA)
+        if loadedA:
+            a = load_through(reg, a)
         uni_o = universe(odepth) if odepth != D else uni
         b = mk(reg, 'b', odepth, uni_o, cachedB)
         ea = alpha(a, uni)
@@ -159,7 +190,7 @@ def h_binop(reg, op, D, uni, cachedA, cachedB, odepth=None, renorm=True):
         na = alpha(a, uni)
         nb = alpha(b, uni_o)
         want = {u: setop(op, ea[u], eb_on_a[u]) for u in ea}
-        tag = '%s[D=%d,other=%d,cacheA=%d,cacheB=%d%s]' % (op, D, odepth, cachedA, cachedB, '' if renorm else ',renorm=False')
+        tag = '%s[D=%d,other=%d,cacheA=%d,cacheB=%d%s%s]' % (op, D, odepth, cachedA, cachedB, '' if renorm else ',renorm=False', ',a loaded from a file' if loadedA else '')
         c.oblige(tag + ':alpha == set algebra', z3.And([na[u] == want[u] for u in ea]))
         c.oblige(tag + ':ids valid integers', z3.Not(z3.Or([FALSE] + invalid_ids(a, uni))))
         c.oblige(tag + ':operand unchanged', z3.And([nb[u] == eb[u] for u in eb]))
@@ -400,6 +431,15 @@ def replay_case(w):
     a_lv = {int(k): v for k, v in w['a_levels'].items()}
     try:
         a = build_real(regions, D, a_lv, w.get('cachedA'))
+        if w.get('loadedA'):
+            import tempfile
+            fd, fn_ = tempfile.mkstemp(prefix='c08r_', suffix='.mim', dir='/var/tmp')
+            os.close(fd)
+            try:
+                a.save(fn_)
+                a = regions.Region.load(fn_)
+            finally:
+                os.remove(fn_)
         ea = leaves_of(a_lv, D)
         if op in ('union', 'without', 'intersect', 'symmetric_difference'):
             od = int(w.get('odepth') or D)
@@ -539,7 +579,7 @@ def run(rep):
                                         F + ':Region.add_pixels', F + ':Region._renorm', F + ':Region._demote_all', F + ':Region.get_demoted', F + ':Region.get_area', F + ':Region.sky_within'],
                    bounds='maxdepth D in {1,2,3}%s; universe: all 1+4+16(+64) pixels below level-1 pixel 0; operand depth D-1, D, D+1, D+2 (finer operands in normal form and demoted); every membership bit symbolic (all 2^21 x 2^21 region pairs at D=3)' % (' and 4 (level-2 subtree)' if thorough else ''),
                    stubs=['set/len/int/sorted -> guarded finite sets (symx.symset)', 'healpy.nside2pixarea: real library on concrete nside', 'np.isin -> per-element guard disjunction', 'healpy.ang2pix: real library on concrete points'],
-                   outside=['pickle round trip (library)', 'depth > 4', 'circle/polygon construction (C09)'])
+                   outside=['the pickle library itself (Region.load is executed on an unpickler stub returning the symbolic region, aliasing kept)', 'depth > 4', 'circle/polygon construction (C09)'])
     cases = []
     for D in depths:
         uni = universe(D)
@@ -560,6 +600,11 @@ def run(rep):
     for D in depths:
         for op in ('union', 'without', 'intersect', 'symmetric_difference'):
             cases.append((h_binop_queried(reg, op, D, universe(D)), dict(op=op, D=D, odepth=D, cachedA=False, cachedB=False, renorm=True, prequery=True)))
+    # the left operand comes out of the real Region.load (file written before / after a query)
+    for D in depths:
+        for op in ('union', 'without', 'intersect', 'symmetric_difference'):
+            for cA in (False, True):
+                cases.append((h_binop(reg, op, D, universe(D), cA, False, loadedA=True), dict(op=op, D=D, odepth=D, cachedA=cA, cachedB=False, renorm=True, loadedA=True)))
     for cA in (False, True):
         cases.append((h_nonfinite(reg, cA), dict(op='within', D=1, cachedA=cA, allsky=True)))
     # whole base pixel 0 (its four level-1 children and their descendants): complete sibling groups at level 1
